@@ -286,3 +286,64 @@ func (r *Report) Finish(tier string, seed int, level string, known []Finding, ev
 	}
 	return out
 }
+
+// importRules runs another property's rules on a scratch report and adopts the obligations (and floors) of the
+// named rules under this property's own rule id. Used where two properties share a necessary condition: the
+// construct is analysed once, each property's evidence names it under its own rule.
+func importRules(c *Ctx, r *Report, from string, rules []string, as string) {
+	var spec *PropSpec
+	if len(c.importing) > 0 {
+		return // a property that is itself being run for adoption does not adopt in turn
+	}
+	spec = registry[from]
+	if spec == nil {
+		infra("importRules: unknown property %s", from)
+	}
+	key := from
+	if c.imported == nil {
+		c.imported = map[string]*Report{}
+	}
+	sub := c.imported[key]
+	if sub == nil {
+		if c.importing == nil {
+			c.importing = map[string]bool{}
+		}
+		if c.importing[key] || r.Property == from {
+			infra("importRules: cyclic adoption of %s rules", from)
+		}
+		c.importing[key] = true
+		defer delete(c.importing, key)
+		sub = NewReport(r.P, from)
+		func() {
+			defer func() {
+				if e := recover(); e != nil {
+					if ie, ok := e.(infraError); ok {
+						panic(ie)
+					}
+					panic(e)
+				}
+			}()
+			spec.Run(c, sub)
+		}()
+		c.imported[key] = sub
+	}
+	want := map[string]bool{}
+	for _, x := range rules {
+		want[x] = true
+	}
+	n := 0
+	for _, ob := range sub.Obs {
+		if want[ob.Rule] {
+			ob.Rule = as
+			r.Obs = append(r.Obs, ob)
+			n++
+		}
+	}
+	for _, f := range sub.Floors {
+		if want[f.Rule] {
+			f.Rule = as
+			r.Floors = append(r.Floors, f)
+		}
+	}
+	r.Floor(as, "obligations adopted from "+from+" "+fmt.Sprint(rules), n, 1)
+}
